@@ -19,6 +19,9 @@ CLAIMED = {
  "C06": ("deterministic simulation: faulty-link reception histories + sender reports + scheduler-placed report ticks + clock jumps vs. RFC 3550 reference receiver (version window, state-set tracking)",
          "Seeded exploration of the real ReceiverInterceptor: 1-3 streams/clock rates, loss, duplication, reordering, sequence wrap and jumps, RTP timestamps crossing 2^32, failing reader, sender reports for matching and foreign SSRCs (incl. NTP with zero middle bits) on the RTCP read path, jumps of the supplied clock, report ticks colliding with arrivals; each reception report must equal an RFC 3550 reference receiver (extended highest sequence, floor(256 lost/expected), saturated cumulative loss, A.8 jitter on wrap-safe 32-bit differences +-1, LSR/DLSR +-1) at some version within the window the reporting goroutine could have observed; the set of possible previous-report states is tracked exactly.",
          "Trusted: pion/rtcp types (fields read directly) and rtcp.Marshal for the injected sender reports; the reference model. One open known finding (report interval spanning >8192 sequence numbers) is listed in known_findings.json. Sampling, not proof.", "DESIGN.md §5 C06"),
+ "C05": ("deterministic simulation: seeded (sequence number, arrival time) histories from a faulty link, arbitrarily interleaved builds; interceptor path under the simrt scheduler; independent wire decoder + record-log oracle",
+         "Seeded exploration of twcc.Recorder (direct, incl. non-monotone arrival clocks) and of the real twcc.SenderInterceptor (reader goroutine, hand-off channel, ticker on the fake clock, failing reader): loss bursts, duplicates, reordering before/after a build, jumps across the 2^16 wrap and beyond 2^15, arrival gaps up to an hour (delta overflow, negative deltas, 64 ms reference rounding). Every emitted feedback is marshalled and decoded by an independent decoder written from the draft (length, padding, one status per number, one delta per received status; pion's Unmarshal must agree), then compared with the record log: received => a recorded first-copy arrival within 125us mod 2^24*64ms; not received => every record of that number could legitimately have left the 500 ms history; everything recorded since the previous build is reported; ranges of one build consecutive; feedback counter +1 per packet.",
+         "Trusted: the independent decoder and record-log model; a gap between packets of one build is accepted only when more than 0x7FFE numbers are missing (the format cannot describe them); a duplicate is retained/forgotten with its first copy. Sampling, not proof.", "DESIGN.md §5 C05"),
 }
 NA = {
  "C20": "pure single-threaded functions of their inputs (sequence unwrapping, NTP conversion): no schedule, clock, fault, I/O or second party for a simulator to control; deciding them is input enumeration/property-based testing, a different technique (they run as real code inside the C05/C07/C08/C09/C19 scenarios).",
